@@ -154,7 +154,8 @@ class Default(AgentStagingInputComponent):
             self._prof.prof('staging_in_start', uid=uid, msg=did)
 
             # agent stager only handles local actions
-            if action not in [rpc.COPY, rpc.LINK, rpc.MOVE, rpc.DOWNLOAD]:
+            if action not in [rpc.COPY, rpc.LINK, rpc.MOVE, rpc.DOWNLOAD,
+                              rpc.TARBALL]:
                 self._prof.prof('staging_in_skip', uid=uid, msg=did)
                 continue
 
@@ -185,7 +186,15 @@ class Default(AgentStagingInputComponent):
                 # path is expected to be an *absolute* path on the target system
                 # - any relative paths specified by the application are expected
                 # to get expanded on the client side.
-                tarball = '%s/%s.tar' % (os.path.dirname(tgt.path), uid)
+                #
+                # The client packs the files of *all* tarball directives into
+                # one `<uid>.tar`, and appends one directive for that tarball -
+                # the original directives need no further action here.
+                if os.path.basename(tgt.path) != '%s.tar' % uid:
+                    self._prof.prof('staging_in_skip', uid=uid, msg=did)
+                    continue
+
+                tarball = tgt.path
                 self._log.debug('extract tarball for %s', tarball)
                 tar = tarfile.open(tarball)
                 tar.extractall(path='/')
